@@ -341,7 +341,7 @@ def build_jobs(pid, tier, seed):
                 break
             shape, tag = name.split('*')
             base = [sizes[k] for k in sizes if k.split('#')[0] == shape]
-            if tag not in ('aa', 'ab') or not base or max(base) > cap or any(n.get('delay') for n in p['nodes']):
+            if tag not in ('aa', 'ab') or not base or max(base) > cap:
                 continue
             cfgs.append(dict(policy=['model2', 400 if quick else 100000], overlap=(pid == 'C08'), snap=False))
             budget -= 1
@@ -647,7 +647,7 @@ def c17_programs(tier, seed):
         else:
             assigns = [tuple(rnd.choice(MODE_NAMES) for _ in range(k)) for _ in range(6 if quick else 40)]
             assigns += [tuple([m] * k) for m in MODE_NAMES]
-        for a in assigns:
+        for a in dict.fromkeys(assigns):        # the same assignment drawn twice is one program
             out.append(with_modes(p, a, ''.join(x[0] for x in a)))
     return out
 
